@@ -189,3 +189,161 @@ Proof.
   - intros t name W. apply name_matches_primary. apply wf_table'_wf_table in W. unfold wf_table in W.
     repeat (apply andb_true_iff in W; destruct W as [W ?]). assumption.
 Qed.
+
+(* ------------------------------------------------------------------------------------------------ *)
+(* the READER: FitsModel.aux_value and C16's AuxModel.reader_value (with the parameters of the current tree: un-doubling
+   present) transcribe the same lines of read_fits_core (fitsio.h 262-279); on character strings they are the same
+   function.  So what C16 proves about its reader (C16_Proofs.reader_value_Q, undouble_dbl: the doubled text of any value
+   followed by blanks is read back as the value followed by those blanks) and what C06_L1.unescape_escape_pad proves
+   about this one are statements about one function. *)
+Lemma lit_app a b : lit (String.append a b) = lit a ++ lit b.
+Proof. induction a as [|c a IH]; [reflexivity|]. cbn [String.append]. rewrite !lit_cons, IH. reflexivity. Qed.
+
+Lemma lit_blanks j : lit (AuxModel.repeat_char AuxModel.blank j) = repeat sp j.
+Proof. induction j as [|j IH]; [reflexivity|]. cbn [AuxModel.repeat_char repeat]. rewrite lit_cons, IH. reflexivity. Qed.
+
+Lemma undouble_agree_both s :
+  lit (AuxModel.undouble s) = unescape_quotes (lit s) /\
+  forall c, lit (AuxModel.undouble (Str c s)) = unescape_quotes (lit (Str c s)).
+Proof.
+  induction s as [|d s [A B]].
+  - split; [reflexivity|]. intros c. cbn [AuxModel.undouble]. rewrite !lit_cons. change (lit Emp) with (@nil N).
+    cbn [unescape_quotes]. destruct (Ascii.N_of_ascii c =? quote); reflexivity.
+  - split; [apply B|]. intros c.
+    change (AuxModel.undouble (Str c (Str d s)))
+      with (if AuxModel.is_quote c && AuxModel.is_quote d then Str d (AuxModel.undouble s) else Str c (AuxModel.undouble (Str d s))).
+    rewrite !is_quote_N. rewrite (lit_cons c (Str d s)), (lit_cons d s).
+    change (unescape_quotes (Ascii.N_of_ascii c :: Ascii.N_of_ascii d :: lit s))
+      with (if Ascii.N_of_ascii c =? quote
+            then (if Ascii.N_of_ascii d =? quote then quote :: unescape_quotes (lit s)
+                  else Ascii.N_of_ascii c :: unescape_quotes (Ascii.N_of_ascii d :: lit s))
+            else Ascii.N_of_ascii c :: unescape_quotes (Ascii.N_of_ascii d :: lit s)).
+    destruct (Ascii.N_of_ascii c =? quote) eqn:E1; destruct (Ascii.N_of_ascii d =? quote) eqn:E2; cbn [andb].
+    + rewrite lit_cons, A. apply N.eqb_eq in E2. rewrite E2. reflexivity.
+    + rewrite lit_cons, (B d), lit_cons. reflexivity.
+    + rewrite lit_cons, (B d), lit_cons. reflexivity.
+    + rewrite lit_cons, (B d), lit_cons. reflexivity.
+Qed.
+
+Lemma undouble_agree s : lit (AuxModel.undouble s) = unescape_quotes (lit s).
+Proof. apply undouble_agree_both. Qed.
+
+Lemma last_char_lit r : match AuxModel.last_char r with
+                        | Some l => r <> Emp /\ last (lit r) 0 = Ascii.N_of_ascii l
+                        | None => r = Emp end.
+Proof.
+  induction r as [|c r IH]; [reflexivity|]. destruct r as [|d r].
+  - cbn. split; [discriminate|reflexivity].
+  - change (AuxModel.last_char (Str c (Str d r))) with (AuxModel.last_char (Str d r)).
+    destruct (AuxModel.last_char (Str d r)) as [l|]; [|discriminate]. destruct IH as [_ IH]. split; [discriminate|].
+    rewrite lit_cons. rewrite lit_cons in *. exact IH.
+Qed.
+
+Lemma take_removelast r : lit (AuxModel.take (String.length r - 1) r) = removelast (lit r).
+Proof.
+  induction r as [|c r IH]; [reflexivity|]. destruct r as [|d r]; [reflexivity|].
+  replace (String.length (Str c (Str d r)) - 1)%nat with (S (String.length (Str d r) - 1)) by (cbn [String.length]; lia).
+  cbn [AuxModel.take]. rewrite lit_cons, IH, (lit_cons c), (lit_cons d). reflexivity.
+Qed.
+
+Lemma strip_quotes_agree raw : lit (AuxModel.strip_quotes raw) = strip_quotes (lit raw).
+Proof.
+  destruct raw as [|c r]; [reflexivity|]. unfold AuxModel.strip_quotes, strip_quotes. rewrite lit_cons, is_quote_N.
+  destruct (Ascii.N_of_ascii c =? quote); [|apply lit_cons].
+  pose proof (last_char_lit r) as L. destruct (AuxModel.last_char r) as [l|].
+  - destruct L as [NE L]. destruct r as [|d r]; [congruence|]. rewrite (lit_cons d r) in *. rewrite L, is_quote_N.
+    destruct (Ascii.N_of_ascii l =? quote); [|apply lit_cons]. rewrite take_removelast, lit_cons. reflexivity.
+  - subst r. reflexivity.
+Qed.
+
+Theorem reader_agree raw : lit (AuxModel.reader_value Generated_aux.gen_params raw) = aux_value (lit raw).
+Proof.
+  unfold AuxModel.reader_value, aux_value. cbn [AuxModel.p_unquote_read Generated_aux.gen_params andb].
+  destruct raw as [|c r]; [reflexivity|]. cbn [AuxModel.first_char]. rewrite (lit_cons c r), is_quote_N.
+  destruct (Ascii.N_of_ascii c =? quote) eqn:E.
+  - rewrite undouble_agree, strip_quotes_agree, lit_cons. reflexivity.
+  - rewrite strip_quotes_agree, lit_cons. unfold strip_quotes. rewrite E. reflexivity.
+Qed.
+
+(* ------------------------------------------------------------------------------------------------ *)
+(* the WRITER's limits: FitsModel.write_key_offer (reserved list, key length, encoded value length against maxdatalen)
+   against C16's model of write_key.  For a key that passes write_key's alphabet checks (check_key = inr m) and a printable
+   value: m is max_data_len, and the value is accepted exactly when write_key_offer says Stored; otherwise the refusal
+   is RefusedTooLong.  A reserved key is RefusedReserved in both. *)
+Lemma encoded_len_enc_len v : encoded_len v = enc_len v.
+Proof. reflexivity. Qed.
+
+Theorem offer_agree ks vs m :
+  AuxModel.check_key Generated_aux.gen_params ks = inr m -> AuxModel.forall_chars AuxModel.is_printable vs = true ->
+  m = N.of_nat (max_data_len (lit ks)) /\
+  (AuxModel.accepts Generated_aux.gen_params ks vs = true <-> write_key_offer (lit ks) (lit vs) = Stored) /\
+  (AuxModel.accepts Generated_aux.gen_params ks vs = false <-> write_key_offer (lit ks) (lit vs) = RefusedTooLong).
+Proof.
+  intros CK PR.
+  assert (M : m = N.of_nat (max_data_len (lit ks)) /\ reserved (lit ks) = false /\
+              (negb (length (lit ks) <=? 8)%nat && (66 <? length (lit ks))%nat = false)).
+  { unfold AuxModel.check_key in CK. rewrite reserved_agree in CK. destruct (reserved (lit ks)); [discriminate|].
+    cbn [AuxModel.p_short_keylen AuxModel.p_short_vmax AuxModel.p_printable_check AuxModel.p_long_keymax
+         AuxModel.p_long_blank_check Generated_aux.gen_params] in CK.
+    rewrite <- lit_length in CK. unfold max_data_len. destruct (length (lit ks) <=? 8)%nat eqn:LK.
+    - destruct (AuxModel.forall_chars _ ks); [|discriminate]. injection CK as <-. repeat split; reflexivity.
+    - destruct (AuxModel.long_scan true ks); [discriminate|].
+      destruct (66 <? length (lit ks))%nat eqn:L66; [discriminate|].
+      match type of CK with (if ?b then _ else _) = _ => destruct b; [discriminate|] end.
+      injection CK as <-. unfold AuxModel.long_vmax. cbn [AuxModel.p_hier_overhead AuxModel.p_card Generated_aux.gen_params].
+      split; [|split; reflexivity].
+      apply Nat.ltb_ge in L66. apply Nat.leb_gt in LK.
+      destruct (13 + N.of_nat (length (lit ks)) <=? 80) eqn:U; lia. }
+  destruct M as (-> & R & LKY). split; [reflexivity|].
+  unfold AuxModel.accepts. rewrite CK, PR. cbn [AuxModel.p_printable_check Generated_aux.gen_params negb andb].
+  rewrite enc_len_agree. unfold write_key_offer. rewrite R, LKY. change (encoded_len (lit vs)) with (enc_len (lit vs)).
+  destruct (max_data_len (lit ks) <? enc_len (lit vs))%nat eqn:C.
+  - apply Nat.ltb_lt in C. assert (X : (N.of_nat (max_data_len (lit ks)) <? N.of_nat (enc_len (lit vs))) = true) by (apply N.ltb_lt; lia).
+    rewrite X. cbn [negb]. split; split; intros H; try discriminate; reflexivity.
+  - apply Nat.ltb_ge in C. assert (X : (N.of_nat (max_data_len (lit ks)) <? N.of_nat (enc_len (lit vs))) = false) by (apply N.ltb_ge; lia).
+    rewrite X. cbn [negb]. split; split; intros H; try discriminate; reflexivity.
+Qed.
+
+Lemma offer_reserved ks vs : AuxModel.reserved Generated_aux.gen_params ks = true <-> write_key_offer (lit ks) (lit vs) = RefusedReserved.
+Proof.
+  rewrite reserved_agree. unfold write_key_offer. destruct (reserved (lit ks)); [tauto|].
+  split; [discriminate|]. destruct (_ && _); [discriminate|]. destruct (_ <? _)%nat; discriminate.
+Qed.
+
+(* ------------------------------------------------------------------------------------------------ *)
+(* ANY value write_key accepts round-trips exactly.  A table whose other parts satisfy wf_table' and whose auxiliary
+   entries are (key, value) pairs write_key accepts — values with quotes anywhere included — and whose HIERARCH cards fit in
+   the standard form (C06_write_key_fit_gap says which accepted entries do not) is written and read back through bytes with
+   every array equal and every auxiliary value equal up to the trailing blanks of aux_reloaded. *)
+Definition set_aux (t : table) (a : list (str * str)) : table :=
+  {| t_order := t_order t; t_knots := t_knots t; t_naxes := t_naxes t; t_strides := t_strides t; t_coeffs := t_coeffs t;
+     t_extents := t_extents t; t_periods := t_periods t; t_aux := a |}.
+
+Definition accepted_entry (kv : str * str) : Prop :=
+  exists ks vs, kv = (lit ks, lit vs) /\ AuxModel.accepts Generated_aux.gen_params ks vs = true /\
+                ((length (lit ks) <= 8)%nat \/ (length (lit ks) + Nat.max 8 (enc_len (lit vs)) <= 66)%nat).
+
+Lemma wf_table'_set_aux t : wf_table' (set_aux t []) = true -> forallb aux_entry_ok (t_aux t) = true -> wf_table' t = true.
+Proof.
+  unfold wf_table', wf_table, set_aux. cbn [t_order t_knots t_naxes t_strides t_coeffs t_extents t_periods t_aux forallb].
+  intros H F. rewrite !andb_true_r in H. repeat (apply andb_true_iff in H; destruct H as [H ?]).
+  assert (K : forallb (fun kv => aux_key_ok (fst kv)) (t_aux t) = true).
+  { eapply forallb_impl; [|exact F]. intros x _ E. unfold aux_entry_ok in E. apply andb_true_iff in E as [E _]. exact E. }
+  repeat (apply andb_true_iff; split); assumption.
+Qed.
+
+Theorem accepted_values_roundtrip t : wf_table' (set_aux t []) = true -> Forall accepted_entry (t_aux t) ->
+  exists t', of_bytes (to_bytes t) = Ok t' /\ read_bytes (to_bytes t) = Ok t' /\ table_eq_upto_padding t t' /\
+             map fst (t_aux t') = map fst (t_aux t) /\
+             Forall2 (fun kv kv' => snd kv' = snd kv ++ repeat sp (8 - enc_len (snd kv))) (t_aux t) (t_aux t').
+Proof.
+  intros W A.
+  assert (F : forallb aux_entry_ok (t_aux t) = true).
+  { apply forallb_forall. intros kv I. rewrite Forall_forall in A. destruct (A kv I) as (ks & vs & -> & ACC & FIT).
+    apply write_key_accepted_entry_ok; assumption. }
+  destruct (roundtrip_full t (wf_table'_set_aux t W F)) as (t' & E1 & E2 & Q). exists t'.
+  split; [exact E1|]. split; [exact E2|]. split; [exact Q|].
+  destruct Q as (_ & _ & _ & _ & _ & _ & Ax). rewrite Ax. split.
+  - rewrite map_map. reflexivity.
+  - clear. induction (t_aux t) as [|kv l IH]; constructor; [reflexivity|exact IH].
+Qed.
